@@ -229,7 +229,7 @@ func (fx *FuncVC) oblige(kind string, goal T, pos token.Pos, text string) {
 	if ps := fx.posOf(pos); ps != "" {
 		name += "@" + ps
 	}
-	if len(fx.st.split) > 1 && fx.spec != nil && fx.spec.Options["split-joins"] != "" && goal.S != "true" {
+	if sj := fx.splitJoinsFor(kind); sj && len(fx.st.split) > 1 && goal.S != "true" {
 		// one obligation per joined path: the merged (ite) state collapses to one branch in each
 		for i, d := range fx.st.split {
 			n := name
@@ -251,6 +251,26 @@ func (fx *FuncVC) oblige(kind string, goal T, pos token.Pos, text string) {
 		Name: name, Kind: kind, Func: fx.funcName(), Pos: fx.posOf(pos), Goal: goal, PC: fx.st.pc,
 		NAssume: len(fx.assumps), NDecl: len(fx.decls), Text: text, fx: fx,
 	})
+}
+
+// splitJoinsFor: option split-joins (every obligation) or split-joins=<kind>[,<kind>] (only those kinds)
+func (fx *FuncVC) splitJoinsFor(kind string) bool {
+	if fx.spec == nil {
+		return false
+	}
+	v := fx.spec.Options["split-joins"]
+	if v == "" {
+		return false
+	}
+	if v == "true" {
+		return true
+	}
+	for _, k := range strings.Split(v, ",") {
+		if strings.TrimSpace(k) == kind {
+			return true
+		}
+	}
+	return false
 }
 
 func (fx *FuncVC) cover(kind string, pos token.Pos, text string) {
